@@ -1,4 +1,4 @@
-import NdnModel.Pit
+import NdnProofs.Lemmas.PitGen
 /-!
 # Specification vocabulary for C03 / C05 (pending Interests)
 
